@@ -251,6 +251,8 @@ type Exec struct {
 	stepBudget      int64
 	stepBudgetStart int64
 	lastPanicWhere  string
+	auxVars         []*Term
+	clockStrict     bool
 	inInit          map[*ssa.Package]bool
 	clock           *Term
 }
